@@ -15,7 +15,7 @@ cd "$S/repo"
 # where does the demo belong?
 PKGDIR=.
 head -5 "$DEMO" | grep -qi "roaring64" && PKGDIR=roaring64
-head -5 "$DEMO" | grep -qi "BitSliceIndexing" && PKGDIR=BitSliceIndexing
+head -12 "$DEMO" | grep -qi "BitSliceIndexing" && PKGDIR=BitSliceIndexing
 grep -q "^package roaring64" "$DEMO" && PKGDIR=roaring64
 grep -q "^package BitSliceIndexing\|^package bitsliceindexing" "$DEMO" && PKGDIR=BitSliceIndexing
 cp "$DEMO" "$PKGDIR/zz_mutant_demo_test.go"
